@@ -14,7 +14,13 @@ threads).
 Part B (`TR.Adaptive`): the service. Quantification: every such configuration, every list of
 operations (= every arrival, poll, cancellation, time-advance order; inner calls that succeed,
 fail, panic or never complete; readiness checks made ahead of the call; probes; callers that
-keep a finished call future alive — `arrive … keep=1` — and let go of it at any later point).
+keep a finished call future alive — `arrive … keep=1` — and let go of it at any later point;
+persistent handles polled for readiness any number of times over an inner service that answers
+ready / pending / error per poll — `manual ready h= rdy=`, `arrive … h=` —; rounds of threads).
+
+Part C (`TR.Adaptive`, interleaving model): clones of the service on any number of threads, every
+thread program (acquire = `poll_ready` + `call`, complete / fail / panic, drop, reads, direct
+feedback), every schedule of the yield points (one per hooked atomic operation).
 -/
 namespace TR.Props.C13
 open TR
@@ -330,6 +336,215 @@ example :
     (run cfg (d ++ [.letGo 1, .letGo 2])).held = [] ∧ (run cfg (d ++ [.letGo 1, .letGo 2])).inFlight = 0 := by
   decide
 
+/-! ### an inner service that is not ready at once: the capacity check is made at every `poll_ready` -/
+
+/-- **Every `poll_ready` ever made on a persistent handle was answered correctly** — the first poll of a handle and
+every later one, whatever the handle was told before (in particular after a poll at which the capacity check had
+passed and only the inner service was pending): refused for capacity iff at least `limit` calls were running at
+*that* poll; `Ready` only with fewer than `limit` calls running at that poll and the inner service ready. -/
+theorem every_poll_exact (cfg : Cfg) (hmm : cfg.min ≤ cfg.max) (hf : cfg.fnum ≤ cfg.fden) (ops : List Op) :
+    ∀ k ∈ (run cfg ops).polls, (k.answer = .refused ↔ k.running ≥ k.limit) ∧
+      (k.answer = .ready → k.running < k.limit ∧ k.inner = .r) := by
+  intro k hk
+  have h := (inv_reachable (cfg := cfg) ⟨hmm, hf⟩ ops).pollsOk k hk
+  refine ⟨h.1, fun hr => ⟨?_, h.2 hr⟩⟩
+  by_cases hlt : k.running < k.limit
+  · exact hlt
+  · have := h.1.mpr (by omega); rw [hr] at this; cases this
+
+/-- **Never admits a caller that checked readiness with `limit` calls already in flight** (richer interface): a
+handle is ready — its caller may `call` — only on the strength of its MOST RECENT `poll_ready`, and that poll was
+made with fewer than `limit` calls in flight and answered `Ready`. -/
+theorem ready_handle_polled_below_limit (cfg : Cfg) (hmm : cfg.min ≤ cfg.max) (hf : cfg.fnum ≤ cfg.fden)
+    (ops : List Op) (hd : Nat) (k : Poll) (hl : lookup (run cfg ops).hready hd = some k) :
+    k ∈ (run cfg ops).polls ∧ k.handle = hd ∧ k.answer = .ready ∧ k.running < k.limit := by
+  have hi := inv_reachable (cfg := cfg) ⟨hmm, hf⟩ ops
+  obtain ⟨h1, h2, h3⟩ := hi.hrdy (hd, k) (lookup_mem hl)
+  exact ⟨h1, h2, h3, ((every_poll_exact cfg hmm hf ops k h1).2 h3).1⟩
+
+/-- A poll that is not answered `Ready` (refused for capacity, inner service pending, inner service failed)
+leaves the handle not ready — whatever it was before. -/
+theorem unready_poll_leaves_handle_not_ready (cfg : Cfg) (s : State) (hd : Nat) (a : Ans)
+    (hn : answerOf s a ≠ .ready) : lookup (stepS cfg s (.ready hd a)).hready hd = none := by
+  simp only [stepS, readyOp, emit, pollHandle, if_neg hn]
+  exact lookup_eraseKey _ _
+
+/-- **The capacity check is repeated at every `poll_ready`**: in a reachable state with `limit` (or more) calls in
+flight, a `poll_ready` on ANY handle — also one whose previous poll found capacity and was only waiting for the inner
+service — is refused (`ready h refused`), the handle is not ready afterwards, nothing starts. -/
+theorem handle_refused_at_limit (cfg : Cfg) (hmm : cfg.min ≤ cfg.max) (hf : cfg.fnum ≤ cfg.fden) (ops : List Op)
+    (hd : Nat) (a : Ans) (hcap : (run cfg ops).running.length ≥ (run cfg ops).alg.limit) :
+    lookup (stepS cfg (run cfg ops) (.ready hd a)).hready hd = none ∧
+    (stepS cfg (run cfg ops) (.ready hd a)).log = (run cfg ops).log ++ [.raw s!"ready {hd} {Answer.refused.render}"] ∧
+    (stepS cfg (run cfg ops) (.ready hd a)).running = (run cfg ops).running ∧
+    (stepS cfg (run cfg ops) (.ready hd a)).inFlight = (run cfg ops).inFlight := by
+  have hc := (ready_iff_capacity cfg hmm hf ops).mpr hcap
+  have hr : answerOf (run cfg ops) a = .refused := (answerOf_refused _ a).mpr hc
+  refine ⟨unready_poll_leaves_handle_not_ready cfg _ hd a (by rw [hr]; simp), ?_, rfl, rfl⟩
+  show (emit (pollHandle (run cfg ops) hd a) [.raw s!"ready {hd} {(answerOf (run cfg ops) a).render}"]).log = _
+  rw [hr]
+  rfl
+
+/-- … and a caller arriving through a handle that is not ready (e.g. one that was waiting for the inner service)
+with `limit` calls in flight is refused, whatever the inner service would answer now: nothing is started. -/
+theorem handle_never_admitted_at_limit (cfg : Cfg) (hmm : cfg.min ≤ cfg.max) (hf : cfg.fnum ≤ cfg.fden)
+    (ops : List Op) (c : Nat) (sc : Step) (keep : Bool) (hd : Nat) (a : Ans)
+    (hk : known (run cfg ops) c = false) (hc : c ∉ (run cfg ops).checked)
+    (hnr : lookup (run cfg ops).hready hd = none)
+    (hcap : (run cfg ops).running.length ≥ (run cfg ops).alg.limit) :
+    (stepS cfg (run cfg ops) (.arriveH c sc keep hd a)).running = (run cfg ops).running ∧
+    (stepS cfg (run cfg ops) (.arriveH c sc keep hd a)).inFlight = (run cfg ops).inFlight ∧
+    (stepS cfg (run cfg ops) (.arriveH c sc keep hd a)).log = (run cfg ops).log ++ [.result c .notReady] := by
+  have hcp := (ready_iff_capacity cfg hmm hf ops).mpr hcap
+  have hcp' : atCapacity (noteKeep (run cfg ops) c keep) = true := by unfold noteKeep; split <;> exact hcp
+  have hr : answerOf (noteKeep (run cfg ops) c keep) a = .refused := (answerOf_refused _ a).mpr hcp'
+  have hnr' : lookup (noteKeep (run cfg ops) c keep).hready hd = none := by unfold noteKeep; split <;> exact hnr
+  have hs : stepS cfg (run cfg ops) (.arriveH c sc keep hd a) =
+      refuseWith (pollHandle (noteKeep (run cfg ops) c keep) hd a) c sc .notReady := by
+    simp only [stepS, hk, hc, arriveHandle, hnr', hr, refusalOf]
+    simp
+  rw [hs]
+  unfold noteKeep
+  split <;> simp [refuseWith, emit, pollHandle]
+
+/-- With spare capacity and the inner service ready the handle becomes ready at that poll (never refused below the limit). -/
+theorem handle_ready_below_limit (cfg : Cfg) (hmm : cfg.min ≤ cfg.max) (hf : cfg.fnum ≤ cfg.fden) (ops : List Op)
+    (hd : Nat) (hcap : (run cfg ops).running.length < (run cfg ops).alg.limit) :
+    lookup (stepS cfg (run cfg ops) (.ready hd .r)).hready hd = some (mkPoll (run cfg ops) hd .r) ∧
+    (mkPoll (run cfg ops) hd .r).answer = .ready := by
+  have h := ready_iff_capacity cfg hmm hf ops
+  have hn : atCapacity (run cfg ops) = false := by
+    cases hcp : atCapacity (run cfg ops)
+    · rfl
+    · have := h.mp hcp; omega
+  have hr : answerOf (run cfg ops) .r = .ready := (answerOf_ready _ _).mpr ⟨hn, rfl⟩
+  refine ⟨?_, hr⟩
+  simp [stepS, readyOp, emit, pollHandle, hr, lookup]
+
+/-- Non-vacuity (the two situations in which "checked once, waited for the inner service" differs). (1) Limit 1, two
+handles: handle 1 polls while the limiter is idle and the inner service is pending; handle 2 polls, is ready and
+calls; the inner service is now ready, handle 1 polls again: refused, with 1 = limit calls in flight — and a caller
+arriving through handle 1 is refused too. After the call has completed handle 1 is admitted. (2) One handle, limit
+6 → 3 → 1 by two failures while it waits: refused at the re-poll with 1 call in flight. -/
+example :
+    let cfg : Cfg := { kind := .aimd, min := 1, max := 1, initial := 1 }
+    let a := [Op.ready 1 .p, .ready 2 .r, .arriveH 2 ⟨5, .ok⟩ false 2 .r]
+    (run cfg a).inFlight = 1 ∧ (run cfg a).hready = [] ∧
+    (run cfg (a ++ [.ready 1 .r])).hready = [] ∧
+    (run cfg (a ++ [.ready 1 .r])).polls.map (·.answer) = [.pending, .ready, .refused] ∧
+    (run cfg (a ++ [.arriveH 3 ⟨0, .ok⟩ false 1 .r])).running = [2] ∧
+    (run cfg (a ++ [.adv 5, .poll 2, .arriveH 3 ⟨0, .ok⟩ false 1 .r])).running = [3] := by
+  decide
+
+example :
+    let cfg : Cfg := { kind := .aimd, min := 1, max := 6, initial := 6, fnum := 1, fden := 2, thrNs := 3600000000000 }
+    let a := [Op.arrive 1 ⟨0, .err 1⟩ false, .arrive 2 ⟨0, .err 1⟩ false, .arrive 3 ⟨9, .ok⟩ false, .ready 1 .p,
+              .poll 1, .poll 2]
+    (run cfg a).inFlight = 1 ∧ (run cfg a).alg.limit = 1 ∧
+    (run cfg (a ++ [.ready 1 .r])).polls.map (·.answer) = [.pending, .refused] ∧
+    (run cfg (a ++ [.ready 1 .r])).polls.map (·.running) = [3, 1] := by
+  decide
+
+
 end service
+
+/-! ## Part C — clones of the service on several threads: the in-flight count is exact under every interleaving -/
+section threads
+open TR.Adaptive
+open TR.Limit (Cfg InB CellsOk)
+
+/-- **One turn of one thread changes the counter by exactly the change of that thread's own live guards**: `+1` at
+the `fetch_add` of `call()` (the guard exists from that turn on), `−1` at the `fetch_sub` of the guard's drop, `0` at
+every other yield point (the loads of `poll_ready`, the mirror, the algorithm's atomics, the operation boundaries). -/
+theorem turn_changes_counter_by_own_guards (cfg : Cfg) (hmm : cfg.min ≤ cfg.max) (hf : cfg.fnum ≤ cfg.fden)
+    (sh : Shared) (tid : Nat) (th : TThread) (hle : th.calls.length ≤ sh.inFlight) :
+    (tstepT cfg sh tid th).1.inFlight + th.calls.length = sh.inFlight + (tstepT cfg sh tid th).2.calls.length :=
+  (tstepT_eff ⟨hmm, hf⟩ sh tid th).cnt hle
+
+/-- **In-flight count exact under every interleaving.** Clones of a fresh limiter on any number of threads, any
+thread programs, any schedule of the yield points (turns for finished or non-existent threads included): after every
+prefix of the schedule (prefixes of schedules are schedules) the counter equals the number of live guards — call
+futures started (`fetch_add` executed) whose guard has not yet been released (`fetch_sub` not yet executed), summed
+over the threads. -/
+theorem threads_in_flight_exact (cfg : Cfg) (hmm : cfg.min ≤ cfg.max) (hf : cfg.fnum ≤ cfg.fden)
+    (progs : List (List TOp)) (sched : List Nat) :
+    (runSchedT cfg { sh := freshShared cfg, threads := freshThreads progs } sched).sh.inFlight =
+      liveGuards (runSchedT cfg { sh := freshShared cfg, threads := freshThreads progs } sched).threads := by
+  have h := runSchedT_inv ⟨hmm, hf⟩ sched
+    (start_tinv (sh := freshShared cfg) (Limit.initCells_ok hmm) (by rfl) progs)
+  have := h.exact
+  rw [liveGuards_eq]
+  simpa [freshShared] using this
+
+/-- The same after the remaining threads have run to completion behind the schedule (what the harness does). -/
+theorem threads_in_flight_exact_final (cfg : Cfg) (hmm : cfg.min ≤ cfg.max) (hf : cfg.fnum ≤ cfg.fden)
+    (progs : List (List TOp)) (sched : List Nat) :
+    (execT cfg { sh := freshShared cfg, threads := freshThreads progs } sched).sh.inFlight =
+      liveGuards (execT cfg { sh := freshShared cfg, threads := freshThreads progs } sched).threads := by
+  have h := execT_inv ⟨hmm, hf⟩ sched
+    (start_tinv (sh := freshShared cfg) (Limit.initCells_ok hmm) (by rfl) progs)
+  have := h.exact
+  rw [liveGuards_eq]
+  simpa [freshShared] using this
+
+/-- **Zero in flight once nothing is running**, for every interleaving: when no thread holds a call future any more
+(everything completed, failed, panicked or was dropped) the limiter reports zero. -/
+theorem threads_quiescent_zero (cfg : Cfg) (hmm : cfg.min ≤ cfg.max) (hf : cfg.fnum ≤ cfg.fden)
+    (progs : List (List TOp)) (sched : List Nat)
+    (hq : ∀ th ∈ (runSchedT cfg { sh := freshShared cfg, threads := freshThreads progs } sched).threads, th.calls = []) :
+    (runSchedT cfg { sh := freshShared cfg, threads := freshThreads progs } sched).sh.inFlight = 0 := by
+  rw [threads_in_flight_exact cfg hmm hf progs sched, liveGuards_eq]
+  apply sumBy_zero
+  intro x hx
+  simp [nlive, hq x hx]
+
+/-- Inside a history: the threads start in any reachable state of the single-threaded service (whose running calls stay
+in flight meanwhile); at every point of every schedule the counter is those running calls plus the threads' live guards. -/
+theorem threads_in_flight_exact_within_history (cfg : Cfg) (hmm : cfg.min ≤ cfg.max) (hf : cfg.fnum ≤ cfg.fden)
+    (ops : List Op) (sched : List Nat) :
+    (runSchedT cfg (tinit (run cfg ops)) sched).sh.inFlight =
+      (run cfg ops).running.length + liveGuards (runSchedT cfg (tinit (run cfg ops)) sched).threads := by
+  have hi := inv_reachable (cfg := cfg) ⟨hmm, hf⟩ ops
+  have h := runSchedT_inv ⟨hmm, hf⟩ sched (tinit_inv hi)
+  rw [liveGuards_eq, ← hi.exact]
+  exact h.exact
+
+/-- The same in the observables: inner calls started = inner calls ended (any outcome, dropped) + the counter − the
+releases that are under way (end of the inner call already logged, guard not yet dropped). -/
+theorem threads_in_flight_matches_log (cfg : Cfg) (hmm : cfg.min ≤ cfg.max) (hf : cfg.fnum ≤ cfg.fden)
+    (progs : List (List TOp)) (sched : List Nat) :
+    calls (runSchedT cfg { sh := freshShared cfg, threads := freshThreads progs } sched).sh.log +
+        sumBy pend (runSchedT cfg { sh := freshShared cfg, threads := freshThreads progs } sched).threads =
+      ended (runSchedT cfg { sh := freshShared cfg, threads := freshThreads progs } sched).sh.log +
+        (runSchedT cfg { sh := freshShared cfg, threads := freshThreads progs } sched).sh.inFlight :=
+  (runSchedT_inv ⟨hmm, hf⟩ sched (start_tinv (sh := freshShared cfg) (Limit.initCells_ok hmm) (by rfl) progs)).trace
+
+/-- The limit stays in `[min, max]` when the feedback comes from calls completing on several threads (the
+algorithm's atomic steps interleaved with those of the service). -/
+theorem threads_limit_in_bounds (cfg : Cfg) (hmm : cfg.min ≤ cfg.max) (hf : cfg.fnum ≤ cfg.fden)
+    (progs : List (List TOp)) (sched : List Nat) :
+    InB cfg (execT cfg { sh := freshShared cfg, threads := freshThreads progs } sched).sh.alg.limit ∧
+    ∀ v ∈ (execT cfg { sh := freshShared cfg, threads := freshThreads progs } sched).sh.alg.stores, InB cfg v := by
+  have h := execT_inv ⟨hmm, hf⟩ sched
+    (start_tinv (sh := freshShared cfg) (Limit.initCells_ok hmm) (by rfl) progs)
+  exact ⟨h.alg.lim, h.alg.stores⟩
+
+/-- Non-vacuity: limit 4. Two threads start one call each (6 turns: boundary, two loads of `poll_ready`,
+`fetch_add`, two loads for the mirror), then end them turn by turn — thread 0 completes its call, thread 1 drops
+its — so that both releases are under way at the same time: with both guards still live the counter is 2, afterwards
+0. Thread 0's completion then feeds the algorithm (limit 4 → 5). -/
+example :
+    let cfg : Cfg := { kind := .aimd, min := 1, max := 8, initial := 4 }
+    let s0 : TState := { sh := freshShared cfg, threads := freshThreads [[.acquire .ok, .finishCall], [.acquire .ok, .dropCall]] }
+    let acq := [0, 0, 0, 0, 0, 0, 1, 1, 1, 1, 1, 1]
+    (runSchedT cfg s0 acq).sh.inFlight = 2 ∧ liveGuards (runSchedT cfg s0 acq).threads = 2 ∧
+    (runSchedT cfg s0 (acq ++ [0, 1])).sh.inFlight = 2 ∧ sumBy pend (runSchedT cfg s0 (acq ++ [0, 1])).threads = 2 ∧
+    (runSchedT cfg s0 (acq ++ [0, 1, 0])).sh.inFlight = 1 ∧
+    (runSchedT cfg s0 (acq ++ [0, 1, 0, 1])).sh.inFlight = 0 ∧
+    liveGuards (runSchedT cfg s0 (acq ++ [0, 1, 0, 1])).threads = 0 ∧
+    (execT cfg s0 (acq ++ [0, 1, 0, 1])).sh.alg.limit = 5 ∧ (execT cfg s0 (acq ++ [0, 1, 0, 1])).sh.inFlight = 0 := by
+  decide
+
+end threads
 
 end TR.Props.C13
